@@ -6,6 +6,7 @@ package worlds
 
 import (
 	"context"
+	"encoding/json"
 	"errors"
 	"fmt"
 	"net/http"
@@ -209,7 +210,13 @@ func runFED16(r *core.Run) {
 	e := newFedEnv(r, true)
 	ctx, cancel := context.WithCancel(context.Background())
 	defer cancel()
-	eng, err := e.buildEngine(ctx, fedEngineOpts{multiFetch: W.Prob(0.15), scheduleFetches: W.Prob(0.2)})
+	engOpts := fedEngineOpts{multiFetch: W.Prob(0.15), scheduleFetches: W.Prob(0.2)}
+	// "entity not found" mode (see below) rewrites plain _entities answers only
+	entityNull := W.Prob(0.3)
+	if entityNull {
+		engOpts.multiFetch = false
+	}
+	eng, err := e.buildEngine(ctx, engOpts)
 	if err != nil {
 		r.HarnessError("engine construction failed: %v\n%s", err, e.describe())
 		return
@@ -232,7 +239,43 @@ func runFED16(r *core.Run) {
 		}
 		return out
 	}
-	if cache.faults {
+	// "entity not found" mode: some (subgraph, entity) pairs are persistently answered with null
+	// inside _entities, so that batches mix null and non-null items; the expected response then is
+	// the one of a twin engine without cache under the very same subgraph behaviour
+	nullRule := func(q *fedRequest, body string) string {
+		if !strings.Contains(q.query, "_entities(") || len(q.reps) == 0 {
+			return body
+		}
+		var root map[string]any
+		if json.Unmarshal([]byte(body), &root) != nil {
+			return body
+		}
+		data, _ := root["data"].(map[string]any)
+		list, _ := data["_entities"].([]any)
+		if len(list) != len(q.reps) {
+			return body
+		}
+		changed := false
+		for i, rep := range q.reps {
+			var rm map[string]any
+			if json.Unmarshal([]byte(rep), &rm) != nil {
+				continue
+			}
+			if e.spec.h("absent", fmt.Sprint(q.sub), fmt.Sprint(rm["__typename"]), fmt.Sprint(rm["id"]))%4 == 0 {
+				list[i] = nil
+				changed = true
+			}
+		}
+		if !changed {
+			return body
+		}
+		r.Probe("entity_null_in_batch")
+		b, _ := json.Marshal(root)
+		return string(b)
+	}
+	if entityNull {
+		e.corruptFn = nullRule
+	} else if cache.faults {
 		e.corruptFn = func(q *fedRequest, body string) string {
 			// an otherwise complete answer that also reports an error must never be stored
 			if strings.Contains(q.query, "_entities") && r.F.Prob(0.08) {
@@ -289,8 +332,46 @@ func runFED16(r *core.Run) {
 		}
 		return
 	}
-	// ---- transparency: every response equals the reference (data); errors only where injected
+	// ---- transparency
+	if entityNull {
+		// against a twin engine without cache (same persistent subgraph behaviour)
+		twin := map[string]fedSummary{}
+		e.headerFn = nil
+		for i, sl := range slots {
+			key := sl.op.Query + "|" + sl.op.Vars
+			tw, ok := twin[key]
+			if !ok {
+				fresh, err := e.buildEngine(ctx, engOpts)
+				if err != nil {
+					r.HarnessError("engine construction failed: %v", err)
+					return
+				}
+				execs, out := e.runOps(fresh, []*fedOp{sl.op}, func(o *fedOp) string { return o.Query }, nil)
+				if out != core.OutDone {
+					return
+				}
+				if execs[0].err != nil {
+					tw = fedSummary{body: "ERR:" + execs[0].err.Error()}
+				} else {
+					tw = e.summarize(execs[0], nil)
+				}
+				twin[key] = tw
+			}
+			var got fedSummary
+			if sl.x.err != nil {
+				got = fedSummary{body: "ERR:" + sl.x.err.Error()}
+			} else {
+				got = e.summarize(sl.x, nil)
+			}
+			if got.data != tw.data || got.hasErr != tw.hasErr || strings.HasPrefix(got.body, "ERR:") != strings.HasPrefix(tw.body, "ERR:") {
+				r.Fail(prop, "not-transparent", "twin", "request %d of the history differs from the same request on an engine without cache (subgraphs answer null for some entities)\noperation: %s vars=%s\nwith cache:    %s\nwithout cache: %s\n%s", i, sl.op.Query, sl.op.Vars, got.body, tw.body, e.describe())
+			}
+		}
+	}
 	for i, sl := range slots {
+		if entityNull {
+			break
+		}
 		ref, merr := e.monolith(sl.op, sl.op.Query, nil)
 		if merr != nil {
 			r.HarnessError("reference failed: %v", merr)
